@@ -5,7 +5,10 @@
 (* real node did (o: verdict of the combined validator, whether Handle was *)
 (* called, messages Handle returned, rows added to the tables).  Nothing   *)
 (* here refers to the code-shaped operators of GossipValidate (only to its *)
-(* vocabulary: WorldRanks, N, MaxN).                                        *)
+(* vocabulary: WorldRanks, N, MaxN, OwnExtra).                              *)
+(* "accepted iff well-formed" is stated for the combined topic validator   *)
+(* of every assembly that carries the core validators: the core keyper and *)
+(* the gnosis and shutter-service keypers.                                 *)
 (*                                                                         *)
 (*  "A key-shares message is accepted iff its instance id matches, the     *)
 (*   receiver is a keyper of the named keyper set and that set's key       *)
@@ -44,27 +47,32 @@ EqualsStoredKey(e, recv) ==
        \/ e.k = "valid" /\ recv.stored = "validAll"
 KeyGenuine(e, recv) == e.k = "valid" \/ EqualsStoredKey(e, recv)
 
-WellFormed(m, recv) ==
+(* on a flavour keyper the message must also be one of that flavour (its genuine extra); the
+   flavour's own signature rules are property C06, here the extra is genuine whenever present *)
+OfFlavour(fl, m) == fl = "core" \/ m.extra = OwnExtra(fl)
+
+WellFormed(fl, m, recv) ==
+    /\ OfFlavour(fl, m)
     /\ Structural(m)
     /\ IF m.mt = "shares"
        THEN SenderExists(m) /\ \A i \in DOMAIN m.entries : ShareGenuine(m.entries[i])
        ELSE \A i \in DOMAIN m.entries : KeyGenuine(m.entries[i], recv)
 
 (* monitors over one observed outcome o *)
-C04_Exact(m, recv, o)     == (o.v = "accept") <=> WellFormed(m, recv)
-C04_Rejected(m, recv, o)  == ~WellFormed(m, recv) => o.v = "reject"
+C04_Exact(fl, m, recv, o)    == (o.v = "accept") <=> WellFormed(fl, m, recv)
+C04_Rejected(fl, m, recv, o) == ~WellFormed(fl, m, recv) => o.v = "reject"
 C04_NoPanic(m, recv, o)   == o.v \notin {"panic", "timeout"} /\ o.herr \notin {"panic", "timeout"}
 C04_NotStored(m, recv, o) == o.v # "accept" => (~o.h /\ o.d.shares = 0 /\ o.d.keys = 0 /\ ~o.d.other)
 C04_NoOutgoing(m, recv, o) == o.v # "accept" => o.out = <<>>
 
-Failed(m, recv, o) ==
-    (IF C04_Exact(m, recv, o) THEN {} ELSE {"C04_Exact"}) \cup
-    (IF C04_Rejected(m, recv, o) THEN {} ELSE {"C04_Rejected"}) \cup
+Failed(fl, m, recv, o) ==
+    (IF C04_Exact(fl, m, recv, o) THEN {} ELSE {"C04_Exact"}) \cup
+    (IF C04_Rejected(fl, m, recv, o) THEN {} ELSE {"C04_Rejected"}) \cup
     (IF C04_NoPanic(m, recv, o) THEN {} ELSE {"C04_NoPanic"}) \cup
     (IF C04_NotStored(m, recv, o) THEN {} ELSE {"C04_NotStored"}) \cup
     (IF C04_NoOutgoing(m, recv, o) THEN {} ELSE {"C04_NoOutgoing"})
 
 (* design-level statement checked by TLC on the code-shaped layer *)
-DesignHolds(m, recv) == Failed(m, recv, Pipeline(m, recv)) = {}
+DesignHolds(fl, m, recv) == Failed(fl, m, recv, Pipeline(fl, m, recv)) = {}
 
 =============================================================================
